@@ -10,7 +10,7 @@ def sh(cmd, cwd):
 def main(d):
     d = os.path.abspath(d)
     meta = json.load(open(os.path.join(d, "meta.json")))
-    tag = ("R4-" if "seedout4" in d else "R3-" if "seedout3" in d else "R2-" if "seedout2" in d else "") + os.path.basename(os.path.dirname(d)) + "-" + os.path.basename(d)
+    tag = ("R5-" if "seedout5" in d else "R4-" if "seedout4" in d else "R3-" if "seedout3" in d else "R2-" if "seedout2" in d else "") + os.path.basename(os.path.dirname(d)) + "-" + os.path.basename(d)
     wt = f"/tmp/vs/{tag}"
     os.makedirs("/tmp/vs", exist_ok=True)
     sh(f"git -C /repo worktree remove --force {wt}", "/")
